@@ -171,7 +171,8 @@ def run(ctx):
                 # direct oracle: the property's equations
                 def cl(a, b):
                     return abs(a - b) <= 1e-12 * (1 + abs(a) + abs(b))
-                if not (cl(H, h * T * RuK) and cl(S, s * RuK) and cl(Cp, cp * RuK) and cl(G, H - T * S)):
+                # (G = H - T*S is a difference of two large numbers: compared at the scale of the terms, not of the result)
+                if not (cl(H, h * T * RuK) and cl(S, s * RuK) and cl(Cp, cp * RuK) and abs(G - (H - T * S)) <= 1e-12 * (1 + abs(H) + abs(T * S))):
                     ctx.violate(key + '|eq|' + u, 'H=(H/RT)*T*R, S=(S/R)*R, Cp=(Cp/R)*R or G=H-T*S fails for unit %s' % u,
                                 dict(job, T=T, unit=u), {'H': h * T * RuK, 'S': s * RuK, 'Cp': cp * RuK, 'G': H - T * S}, vals)
                 if first is None:
